@@ -188,6 +188,16 @@ class Analysis:
                   'as_deref_mut', 'as_deref', 'unwrap', 'expect', 'last_mut', 'first_mut', 'index_mut', 'index'):
             return 'ok', 'reborrow/read'
         tgt = ty
+        g0 = None
+        for nm in set(c.names()):
+            g0 = g0 or self.prog.resolve(nm, fn.crate)
+        if g0 is not None:
+            # crate-local callee (a helper that received the container): summary of the corresponding parameter
+            res = self.param_effect(g0, ai + 1, depth)
+            if res == 'sens':
+                return 'sens', 'callee %s has an order-sensitive effect through parameter %d (%s)' % (
+                    g0.name, ai, self.param_summ.get((g0.name, ai + 1, 'why'), ''))
+            return 'ok', 'callee %s: no order-sensitive effect through parameter %d' % (g0.name, ai)
         if re.search(r'std::collections::(HashMap|HashSet|BTreeMap|BTreeSet)<', tgt) or 'hash_map::' in tgt or 'btree_map::' in tgt \
                 or 'Entry<' in tgt:
             if cn in MAP_KEYED:
@@ -813,7 +823,7 @@ class Analysis:
                     tgt = fn.ty.get(dl, '?') if dl is not None else '?'
                     tl = dl
                 if HASHC.search(tgt.lstrip('&mut ').strip()) or HASHC.search(tgt):
-                    mapped = 'Map<' in fn.ty.get(hargs[0], '') and re.search(r'(HashMap|BTreeMap)<', tgt)
+                    mapped = re.search(r'\b(Map|FilterMap)<', fn.ty.get(hargs[0], '')) and re.search(r'(HashMap|BTreeMap)<', tgt)
                     if mapped and self.map_closures_preserve_key(fn, hargs[0]):
                         self.emit(fn, c, k, 'ok', 're-keyed into %s through key-preserving map closure(s)' % tgt[:80])
                     elif mapped:
@@ -920,7 +930,30 @@ class Analysis:
                             return False
                         if not all(f == '0' for (_, f) in org.fields):
                             return False
-                elif c.short in ('filter_map', 'flat_map', 'scan', 'zip', 'chain', 'map_while'):
+                elif c.short == 'filter_map' and len(c.args) > 1:
+                    # `filter_map(|(k, v)| cond.then(|| (k.clone(), f(v))))`-like: every Some((key, ..)) built in the closure (or in a
+                    # closure nested in it) must carry field 0 of the item as its key
+                    n_maps += 1
+                    cl = op_local(c.args[1])
+                    g = None
+                    for (b2, i2, k2, n2) in fn.defs.get(cl, []) if cl is not None else []:
+                        if k2 == 'stmt' and n2['r']['rv'] == 'agg' and n2['r']['kind'].startswith('closure:'):
+                            g = self.prog.by_crate[fn.crate].get(n2['r']['kind'][len('closure:'):])
+                    if g is None:
+                        return False
+                    tuples = 0
+                    for h in [g] + list(self._nested_closures(g)):
+                        for b3 in h.blocks.values():
+                            for n3 in b3['stmts']:
+                                if n3['r']['rv'] == 'agg' and n3['r']['kind'] == 'tuple' and len(n3['r']['ops']) == 2 and \
+                                        re.search(r'^\((&)?std::string::String, ', h.ty.get(n3['dst']['l'], '')):
+                                    tuples += 1
+                                    org = mir.provenance(h, n3['r']['ops'][0], pass_through=KEY_PASS)
+                                    if org.binops or org.consts or any(x.short not in KEY_PASS for x in org.calls):
+                                        return False
+                    if tuples == 0:
+                        return False
+                elif c.short in ('flat_map', 'scan', 'zip', 'chain', 'map_while'):
                     return False
         return n_maps > 0
 
